@@ -1,23 +1,24 @@
 #!/bin/sh
 # usage: confirm_mutant.sh <worktree> <mutant dir> [FIPS]   - independent confirmation of a seeded change:
-# clean: builds + demo passes; mutated: builds, existing tests pass, demo fails. Restores the worktree.
+# clean: builds + demo passes; mutated: builds, existing tests give the same result as on the clean tree
+# (make -k check: only the pre-existing mh_sha256_test reference miscompile may fail), demo fails. Restores the worktree.
 WT=$1; M=$2; FIPS=${3:-}
 cd "$WT" || exit 9
 git checkout -- . 2>/dev/null
 make -f Makefile.unx clean >/dev/null 2>&1
 EXTRA=""
 [ -n "$FIPS" ] && EXTRA="FIPS_MODE=y"
-make -f Makefile.unx -j8 lib $EXTRA >/dev/null 2>&1 || { echo "CLEAN BUILD FAILED"; exit 1; }
-sh "$M/demo.sh" "$WT" >/tmp/cm.$$.clean 2>&1; c=$?
-git apply "$M/patch.diff" || { echo "PATCH FAILED"; exit 1; }
+make -f Makefile.unx -j8 lib $EXTRA >/dev/null 2>&1 || { echo "CLEAN BUILD FAILED $M"; exit 1; }
+timeout 900 sh "$M/demo.sh" "$WT" >/tmp/cm.$$.clean 2>&1; c=$?
+git apply "$M/patch.diff" || { echo "PATCH FAILED $M"; exit 1; }
 make -f Makefile.unx clean >/dev/null 2>&1
-make -f Makefile.unx -j8 lib >/dev/null 2>&1 || { echo "MUT BUILD FAILED"; git checkout -- .; exit 1; }
-make -f Makefile.unx -j8 check >/tmp/cm.$$.check 2>&1; t=$?
-grep -q "Finished running check" /tmp/cm.$$.check || t=99
-grep -qi "fail" /tmp/cm.$$.check && grep -i "fail" /tmp/cm.$$.check | grep -vi "0 fail" | head -3
+make -f Makefile.unx -j8 lib >/dev/null 2>&1 || { echo "MUT BUILD FAILED $M"; git checkout -- .; exit 1; }
+make -f Makefile.unx -j8 -k check >/tmp/cm.$$.check 2>&1
+fails=$(grep -E "^make.*\*\*\*.*\.run\]? Error|\.run\] Error" /tmp/cm.$$.check | grep -o "[a-z0-9_]*_test\.run" | sort -u | tr '\n' ' ')
+done_n=$(grep -c "Completed run" /tmp/cm.$$.check)
 if [ -n "$FIPS" ]; then make -f Makefile.unx clean >/dev/null 2>&1; make -f Makefile.unx -j8 lib $EXTRA >/dev/null 2>&1; fi
-sh "$M/demo.sh" "$WT" >/tmp/cm.$$.mut 2>&1; m=$?
+timeout 900 sh "$M/demo.sh" "$WT" >/tmp/cm.$$.mut 2>&1; m=$?
 git checkout -- .
 make -f Makefile.unx clean >/dev/null 2>&1
-echo "RESULT $M clean_demo=$c tests=$t mutated_demo=$m"
+echo "RESULT $M clean_demo=$c tests_completed=$done_n failing=[$fails] mutated_demo=$m"
 rm -f /tmp/cm.$$.*
